@@ -1204,6 +1204,15 @@ func (c *Ctx) atoms(cond ssa.Value, pol bool, e *env) []Atom {
 // phiBoolAtoms handles short-circuit values: phi [false, ..., false, last] is a conjunction whose
 // earlier conjuncts are the branch conditions that lead to the final edge.
 func (c *Ctx) phiBoolAtoms(p *ssa.Phi, pol bool, e *env) []Atom {
+	// a boolean carried round a loop refers to itself through its own edges: read it once
+	if c.phiBusy == nil {
+		c.phiBusy = map[*ssa.Phi]bool{}
+	}
+	if c.phiBusy[p] {
+		return nil
+	}
+	c.phiBusy[p] = true
+	defer delete(c.phiBusy, p)
 	blk := p.Block()
 	var lastIdx = -1
 	short := !pol // value contributed by short-circuit edges: false for &&, true for ||
